@@ -713,6 +713,30 @@ def _(e, c, a):
     return Err(Opaque('io::Error', 'zstd: not a frame'))
 
 
+@model(r'zstd::bulk::(functions::)?decompress$')
+def _(e, c, a):
+    # one-shot decompression into a buffer of `capacity` bytes: fails when the decompressed size exceeds the capacity.
+    # Compression ratios are outside the injective-pair model (a frame of n bytes may decode to far more than any fixed
+    # multiple of n), so whether the value fits is an environment choice; a counterexample that takes it is replayed
+    # natively with a large, highly compressible value in place of the witness value.
+    src = deref_vec(a[0])
+    e.events.append(('zstd-decode', len(src.cells)))
+    if len(src.cells) < 4: return Err(Opaque('io::Error', 'zstd: not a frame'))
+    ok = zand([veq(src.cells[i].v, ZSTD_MAGIC[i]) for i in range(4)])
+    if not (e.branch(ok) if is_sym(ok) else ok): return Err(Opaque('io::Error', 'zstd: not a frame'))
+    if e.choose(2, 'zstd: decompressed size exceeds the capacity') == 1:
+        e.events.append(('zstd-capacity-exceeded', a[1]))
+        return Err(Opaque('io::Error', 'zstd: destination buffer is too small'))
+    return Ok(RVec([Cell(x.v) for x in src.cells[4:]]))
+
+
+@model(r'zstd::bulk::(functions::)?compress$')
+def _(e, c, a):
+    src = deref_vec(a[0])
+    e.events.append(('zstd-encode', len(src.cells)))
+    return Ok(RVec([Cell(b) for b in ZSTD_MAGIC] + [Cell(x.v) for x in src.cells]))
+
+
 # ---------------------------------------------------------------- task::Poll combinators
 @model(r'^Poll::map$|task::Poll::map$')
 def _(e, c, a):
